@@ -475,7 +475,9 @@ def check_container(case, ctx):
         o.sample_size_u, o.sample_size_v = n, n
         o.tessellate(vertex_spacing=k)
         refs.append(([list(v.data) for v in o.vertices], [list(f.data) for f in o.faces]))
-    cont = multi.SurfaceContainer(*[build.make(d) for d in case["shapes"]])
+    objs = [build.make(d) for d in case["shapes"]]
+    late = case["twice"] and len(objs) >= 2
+    cont = multi.SurfaceContainer(*(objs[:-1] if late else objs))
     # containers hand their delta to the elements (the container's own sample_size uses another convention, 1/(n-1),
     # which is not part of this property), so the density is set through delta
     cont.delta = 1.0 / n
@@ -483,6 +485,10 @@ def check_container(case, ctx):
     if case["twice"]:
         _ = cont.vertices, cont.faces
         cont.tessellate(vertex_spacing=k)          # a second call must not renumber anything
+        if late:
+            # the last surface joins after the first tessellation: the aggregate is rebuilt, ids stay consecutive
+            cont.add(objs[-1])
+            cont.tessellate(vertex_spacing=k)
     verts, faces = cont.vertices, cont.faces
     what = "container of %d surfaces, %dx%d samples, spacing %d%s" % (len(refs), n, n, k, ", tessellated twice" if case["twice"] else "")
     ctx.nt(True, "container>=2")
